@@ -22,7 +22,9 @@ type InjErr struct {
 	Site string
 }
 
-func (e *InjErr) Error() string { return fmt.Sprintf("injected fault #%d at %s %s", e.N, e.Kind, e.Site) }
+func (e *InjErr) Error() string {
+	return fmt.Sprintf("injected fault #%d at %s %s", e.N, e.Kind, e.Site)
+}
 func (e *InjErr) Unwrap() error { return ErrInjected }
 
 type ctxKey int
@@ -58,6 +60,9 @@ type Call struct {
 	Handle int
 	Err    error
 	Actor  string
+	// Corrupt: the read succeeded as far as the caller can tell, but one byte of the data it got
+	// was flipped in flight.
+	Corrupt bool
 }
 
 type simFile struct {
@@ -383,6 +388,12 @@ func (x *simReader) Read(p []byte) (int, error) {
 		n = 1 + int(dec.Arg)%(n-1) // legal for io.Reader: fewer bytes than asked, no error
 	}
 	copy(p, avail[:n])
+	if dec.Fault == FCorrupt && n > 0 {
+		p[int(dec.Arg*131)%n] ^= 1 << uint(dec.Arg%8)
+		x.d.mu.Lock()
+		c.Corrupt = true
+		x.d.mu.Unlock()
+	}
 	x.pos += int64(n)
 	x.d.endCall(c, n, nil)
 	return n, nil
